@@ -247,8 +247,9 @@ def check_wire(p, h, exp_wire):
     p.nwire = len(evs)
     a = h["a"]
     if a not in ("startTest", "outcome"):
-        if new:
-            raise Bad("wire-spurious", a, [], [tuple(e) for e in new])
+        stray = [tuple(e) for e in new if e.test_id is not None]
+        if stray:  # events about a test outside its inprogress / files / final shape
+            raise Bad("wire-spurious", a, [], stray)
         return
     if a == "startTest":
         x = exp[0]
@@ -454,9 +455,8 @@ def run(tier, pid="C09"):
     else:
         jobs = [
             ("MCStreamConv", "sc_exp1.cfg", {}, True),
-            ("MCStreamConv", "sc_exp2.cfg", {}, True),
+            ("MCStreamConv", "sc_exp2T.cfg", {}, True),
             ("MCStreamConv", "sc_exp2c.cfg", {}, True),
-            ("MCStreamConv", "sc_exp3.cfg", {}, True),
             ("MCStreamConv", "sc_exp3T.cfg", {}, True),
             ("MCStreamConv", "sc_expT1.cfg", {}, True),
             ("MCStreamConv", "sc_mcT1.cfg", {}, False),
